@@ -4,6 +4,11 @@
 (* worker function supplied by the driver logs istart (it started),        *)
 (* isawstop (it observed its stop channel closed) and iend (it is about to *)
 (* return).  Holders log call/ret of Do and the call of the done function. *)
+(* Some instances return by themselves (iselfend) although they were never *)
+(* told to stop: the Worker then still counts as running until every       *)
+(* holder is done (no new instance may start beside it), and the stop      *)
+(* channel handed to that instance must still be closed in the end (a      *)
+(* monitor goroutine of the driver logs izstop when it is).                *)
 (***************************************************************************)
 EXTENDS Integers, Sequences, FiniteSets, TLC, Json, IOUtils, TLCExt
 
@@ -16,12 +21,15 @@ VARIABLES l, pend,
   sawstop,     \* that instance has seen its stop channel closed
   holding,     \* holder ids whose Do has returned and whose done function has not been called yet
   owed,        \* a Do has returned while no instance had announced itself yet: one must start
-  started      \* instance ids seen so far
-vars == <<running, sawstop, holding, owed, started>>
+  started,     \* instance ids seen so far
+  zombies,     \* instances that returned by themselves and whose stop channel has not been reported closed yet
+  clear,       \* since the last self-return there was a moment without holders (necessary for the Worker to reset)
+  strict       \* controlled scheduler: the log order is the real order
+vars == <<running, sawstop, holding, owed, started, zombies, clear, strict>>
 tvars == <<vars, l, pend>>
 Idle == [st |-> "idle", line |-> 0]
 
-TVInit == l = 1 /\ pend = [g \in GS |-> Idle] /\ running = 0 /\ sawstop = FALSE /\ holding = {} /\ owed = FALSE /\ started = {} /\ TLCSet(1, 0)
+TVInit == l = 1 /\ pend = [g \in GS |-> Idle] /\ running = 0 /\ sawstop = FALSE /\ holding = {} /\ owed = FALSE /\ started = {} /\ zombies = {} /\ clear = FALSE /\ strict = FALSE /\ TLCSet(1, 0)
 
 Cur == TLog[l]
 IsEv(e) == l <= NL /\ Cur.ev = e
@@ -30,13 +38,15 @@ Consume == l' = l + 1
 TReset ==
   /\ IsEv("reset") /\ Consume
   /\ pend' = [g \in GS |-> Idle] /\ running' = 0 /\ sawstop' = FALSE /\ holding' = {} /\ owed' = FALSE /\ started' = {}
+  /\ zombies' = {} /\ clear' = FALSE /\ strict' = (Cur.mode = "c")
 
 TCall ==
   /\ IsEv("call") /\ Consume /\ pend[Cur.g].st = "idle"
   /\ pend' = [pend EXCEPT ![Cur.g] = [st |-> "called", line |-> l]]
   \* calling the done function ends the hold (the call line is logged before the function is invoked)
   /\ holding' = IF Cur.op = "Done" THEN holding \ {Cur.h} ELSE holding
-  /\ UNCHANGED <<running, sawstop, owed, started>>
+  /\ clear' = (clear \/ (holding' = {} /\ ~owed))
+  /\ UNCHANGED <<running, sawstop, owed, started, zombies, strict>>
 
 TRet ==
   /\ IsEv("ret") /\ Consume
@@ -46,29 +56,48 @@ TRet ==
        THEN \* from the moment Do returns an instance is running whose stop channel is open: never one that is stopping
             /\ ~(running # 0 /\ sawstop)
             /\ holding' = holding \cup {Cur.h}
-            /\ owed' = (owed \/ running = 0)
+            \* (a Do may join an instance that has returned by itself: nothing new is owed then)
+            /\ owed' = (owed \/ (running = 0 /\ zombies = {}))
        ELSE UNCHANGED <<holding, owed>>
-  /\ UNCHANGED <<running, sawstop, started>>
+  /\ UNCHANGED <<running, sawstop, started, zombies, clear, strict>>
 
 \* at most one instance at a time; instance ids are fresh
 TIStart ==
   /\ IsEv("istart") /\ Consume
   /\ running = 0 /\ Cur.i \notin started
+  \* never beside an instance that returned by itself and is still held: the Worker resets only once nobody holds it
+  \* (controlled scheduler: its stop channel has been reported closed; free-running: the report may lag)
+  /\ zombies # {} => (~strict /\ clear)
   /\ running' = Cur.i /\ sawstop' = FALSE /\ started' = started \cup {Cur.i} /\ owed' = FALSE
-  /\ UNCHANGED <<pend, holding>>
+  /\ UNCHANGED <<pend, holding, zombies, clear, strict>>
 
 \* the stop channel is closed only after every outstanding done function has been called
 TISawStop ==
   /\ IsEv("isawstop") /\ Consume
   /\ running = Cur.i /\ holding = {} /\ ~owed
   /\ sawstop' = TRUE
-  /\ UNCHANGED <<pend, running, holding, owed, started>>
+  /\ UNCHANGED <<pend, running, holding, owed, started, zombies, clear, strict>>
 
 TIEnd ==
   /\ IsEv("iend") /\ Consume
   /\ running = Cur.i /\ sawstop
   /\ running' = 0 /\ sawstop' = FALSE
-  /\ UNCHANGED <<pend, holding, owed, started>>
+  /\ UNCHANGED <<pend, holding, owed, started, zombies, clear, strict>>
+
+\* the function returns by itself, never having seen its stop channel closed
+TISelfEnd ==
+  /\ IsEv("iselfend") /\ Consume
+  /\ running = Cur.i /\ ~sawstop
+  /\ running' = 0 /\ zombies' = zombies \cup {Cur.i} /\ clear' = (holding = {} /\ ~owed)
+  /\ UNCHANGED <<pend, sawstop, holding, owed, started, strict>>
+
+\* the stop channel of an instance that returned by itself is closed: only after every outstanding done function was called
+TIZStop ==
+  /\ IsEv("izstop") /\ Consume
+  /\ Cur.i \in zombies /\ clear
+  /\ strict => (holding = {} /\ ~owed)
+  /\ zombies' = zombies \ {Cur.i}
+  /\ UNCHANGED <<pend, running, sawstop, holding, owed, started, clear, strict>>
 
 TQuiescent ==
   /\ IsEv("quiescent") /\ Consume
@@ -77,17 +106,18 @@ TQuiescent ==
   \* and an instance that nobody holds has been stopped and has exited
   /\ Cur.pending = <<>>
   /\ ~owed
-  /\ holding = {} => running = 0
-  /\ holding # {} => (running # 0 /\ ~sawstop)
-  /\ Cur.instance = (running # 0)
+  /\ holding = {} => (running = 0 /\ zombies = {})
+  /\ holding # {} => ((running # 0 /\ ~sawstop) \/ zombies # {})
+  /\ Cur.instance = (running # 0 \/ zombies # {})
   /\ UNCHANGED <<vars, pend>>
 
 TFinal ==
   /\ IsEv("final") /\ Consume
   /\ Cur.leaked = 0 /\ Cur.returned /\ running = 0
+  /\ zombies = {}                  \* every started instance was told to stop in the end
   /\ UNCHANGED <<vars, pend>>
 
-TVNext == TReset \/ TCall \/ TRet \/ TIStart \/ TISawStop \/ TIEnd \/ TQuiescent \/ TFinal
+TVNext == TReset \/ TCall \/ TRet \/ TIStart \/ TISawStop \/ TIEnd \/ TISelfEnd \/ TIZStop \/ TQuiescent \/ TFinal
 TVSpec == TVInit /\ [][TVNext]_tvars
 Mark ==
   /\ IF l - 1 > TLCGet(1) THEN TLCSet(1, l - 1) ELSE TRUE
